@@ -1,6 +1,7 @@
 package main
 
 import (
+	"os"
 	"sort"
 	"fmt"
 	"go/types"
@@ -270,6 +271,117 @@ func (x *Exec) logsMentioned(c *Contract) []string {
 	return out
 }
 
+// reachableLogs: the call logs a function with a body can append to, through its static callees, the closures it
+// creates and the interface methods it invokes (by their interface contracts). A caller that applies the function's
+// contract advances these logs even when the contract does not mention them: "this log did not change" is never
+// assumed about a callee that can reach the logged function.
+func (x *Exec) reachableLogs(f *ssa.Function) []string {
+	if x.reachLogMemo == nil {
+		x.reachLogMemo = map[*ssa.Function][]string{}
+	}
+	if r, ok := x.reachLogMemo[f]; ok {
+		return r
+	}
+	set := map[string]bool{}
+	seen := map[*ssa.Function]bool{}
+	var visit func(g *ssa.Function)
+	visit = func(g *ssa.Function) {
+		if g == nil || seen[g] {
+			return
+		}
+		seen[g] = true
+		for _, b := range g.Blocks {
+			for _, ins := range b.Instrs {
+				if mc, ok := ins.(*ssa.MakeClosure); ok {
+					if af, ok := mc.Fn.(*ssa.Function); ok {
+						visit(af)
+					}
+				}
+				ci, ok := ins.(ssa.CallInstruction)
+				if !ok {
+					continue
+				}
+				cc := ci.Common()
+				if cc.IsInvoke() {
+					if ic := x.ifaceContract(cc.Method); ic != nil && ic.Flags["logged"] {
+						set[logKey(ic)] = true
+					}
+					continue
+				}
+				callee := cc.StaticCallee()
+				if callee == nil {
+					continue
+				}
+				if c := x.contractFor(callee); c != nil && c.Flags["logged"] {
+					set[logKey(c)] = true
+				}
+				for _, vc := range x.variants[callee.String()] {
+					if vc.Flags["logged"] {
+						set[logKey(vc)] = true
+					}
+				}
+				if len(callee.Blocks) > 0 && x.isInTree(callee) {
+					visit(callee)
+				}
+			}
+		}
+	}
+	visit(f)
+	out := sortedKeys(set)
+	x.reachLogMemo[f] = out
+	return out
+}
+
+// callbackCapable: a value of this type can carry code or references to objects with methods, so a callee that
+// receives it can call back into logged functions.
+func callbackCapable(t types.Type) bool {
+	switch u := t.Underlying().(type) {
+	case *types.Basic:
+		return false
+	case *types.Slice:
+		return callbackCapable(u.Elem())
+	case *types.Array:
+		return callbackCapable(u.Elem())
+	}
+	return true
+}
+
+// advanceAllLogs: after a call whose effects are unknown ("modifies all", no contract) and that was handed something
+// it can call back through, every call log may have grown (its history is kept).
+func (x *Exec) advanceAllLogs(st *State, args []Val, except string, who string) {
+	capable := false
+	for _, a := range args {
+		if a.typ != nil && callbackCapable(a.typ) {
+			capable = true
+		}
+	}
+	if !capable {
+		return
+	}
+	if os.Getenv("VERIF_DEBUG_LOGS") != "" {
+		fmt.Fprintf(os.Stderr, "advance-all-logs in %v after %s\n", x.curFn, who)
+	}
+	seen := map[string]bool{}
+	add := func(c *Contract) {
+		if c.Flags["logged"] {
+			seen[logKey(c)] = true
+		}
+	}
+	for _, c := range x.contracts {
+		add(c)
+	}
+	for _, vs := range x.variants {
+		for _, c := range vs {
+			add(c)
+		}
+	}
+	for _, k := range sortedKeys(seen) {
+		if k != except {
+			x.advanceLog(st, k)
+		}
+	}
+}
+
 // advanceLog havocs a call log keeping its history (entries below the old count).
 func (x *Exec) advanceLog(st *State, key string) {
 	nName := "log." + key + ".n"
@@ -288,7 +400,11 @@ func (x *Exec) advanceLog(st *State, key string) {
 		}
 		cur := st.ghost[g]
 		nv := fresh("log", cur.Sort)
+		// a fact about two versions of the log: valid for the rest of the path, it survives loop cuts
+		savedKeep := curKeep
+		curKeep = true
 		st.assume(T{fmt.Sprintf("(forall ((i Int)) (! (=> (< i %s) (= (select %s i) (select %s i))) :pattern ((select %s i))))", n.S, nv.S, cur.S, nv.S), SBool})
+		curKeep = savedKeep
 		st.ghost[g] = nv
 	}
 }
